@@ -487,7 +487,7 @@ impl Model {
         }
 
         // ---------------- C05 (+ C17 request index)
-        if self.on("C05") || self.on("C17") || self.on("C02") {
+        {
             if res.ok && is_unstake {
                 let r = self.reqs.entry((pre.pending.id, op_sender.clone())).or_default();
                 r.amount += paid_t;
